@@ -6,7 +6,7 @@ claim('C01', 'property-based testing: generated/corpus/mutated programs and libr
       'Trusts the harness tiling checker (harness/src/sv.rs) and that preprocess_str + parse_*_pp equals the one-step entry points (property C20).',
       'DESIGN.md 6 C01, 4.1')
 claim('C02', 'property-based testing: typed Annex A sentence generator with expectations, strict acceptance + position-based classification oracle',
-      'Exploration: ~26 000 (quick) / 360 000 (thorough) generated programs with adversarial identifiers and random layout must be accepted, and every declared name must sit under the expected identifier kind inside the expected Annex A construct kind; every keyword/identifier token must be exactly one leaf. Shrinks to a minimal program.',
+      'Exploration: ~26 000 (quick) / 360 000 (thorough) generated programs with adversarial identifiers and random layout must be accepted, and every declared name must sit under the expected identifier kind inside the expected Annex A construct kind; every keyword/identifier token and every multi-character operator must be exactly one leaf; every enum node that consists of one keyword only must be the variant named after that keyword (also over every accepted corpus file). A rejection or a different tree at the production memo capacity is re-judged against listed finding K3. Shrinks to a minimal program.',
       'Trusts that the generator derives only Annex A sentences (validated family by family against the unchanged tree; forms ambiguous in Annex A carry sets of admissible kinds).',
       'DESIGN.md 6 C02, 3.1')
 claim('C03', 'property-based testing: generated include/macro/conditional file trees with globally unique tokens; per-output-position origin oracle from source search + reference-model labels',
@@ -14,19 +14,19 @@ claim('C03', 'property-based testing: generated include/macro/conditional file t
       'Trusts the reference preprocessor model only for labelling which output token came from which file / macro; exact offsets come from searching unique tokens in the source files, not from the model.',
       'DESIGN.md 6 C03, 4.3')
 claim('C04', 'property-based testing: generated conditional-compilation programs vs. reference preprocessor (differential, token-for-token + define table)',
-      'Exploration: ~70 000 (quick) / 900 000 (thorough) generated programs with nested chains, all define/undef patterns, dead branches full of would-be errors and random caller tables; the output tokens, the final define table and the absence of errors from dead branches are compared with an AST-level reference model of IEEE 22.6. Known finding K2 is classified by an exact model deviation flag.',
+      'Exploration: ~70 000 (quick) / 900 000 (thorough) generated programs with nested chains, all define/undef patterns, dead branches full of would-be errors and random caller tables; the output tokens, the final define table and the absence of errors from dead branches are compared with an AST-level reference model of IEEE 22.6. A third of the cases put plain tokens directly in front of conditionals. Known findings K2 (model deviation flag) and K7 (token straddling a removed directive in the model text) are classified exactly.',
       'Trusts the reference model (harness/src/ppm/model.rs) and the harness lexer; white-space differences are not judged.',
       'DESIGN.md 6 C04, 4.4')
 claim('C05', 'property-based testing: generated define/usage programs incl. single injected misuse vs. reference preprocessor (token-for-token output, error payload, define table)',
-      'Exploration: ~160 000 (quick) / 1.9 M (thorough) generated programs covering formals/defaults/empty and omitted actuals/nested brackets/strings/pasting/stringification/continuations/nested usages/redefinition; expected DefineNotFound / DefineArgNotFound / DefineNoArgs payloads are checked by injecting exactly one fault. Known finding K6 is classified by an exact model deviation flag.',
+      'Exploration: ~160 000 (quick) / 1.9 M (thorough) generated programs covering formals/defaults/empty and omitted actuals/nested brackets/strings/pasting/stringification/continuations/nested usages/redefinition; expected DefineNotFound / DefineArgNotFound / DefineNoArgs payloads are checked by injecting exactly one fault. Formals may be spelled like directives or hold a '$'; macros may be defined by another macro's expansion. Known findings K8-K12 (macro-text scanner / argument grammar corners) are excluded by construction and replayed as witnesses.',
       'Trusts the reference model and lexer; constructs whose meaning the standard leaves open (more actuals than formals, usages inside `"…`") are not generated.',
       'DESIGN.md 6 C05, 4.4')
 claim('C09', 'fault/shape enumeration + random mixtures in isolated child processes: every cycle length and chain depth, oracle on the error structure / expanded tokens',
-      'Exploration (enumerated): all macro-cycle lengths 1-8, include-cycle lengths 1-5, macro->include and `include `MACRO cycles, every macro-chain and include-chain depth 1-80, cross products of macro depth x include depth around the limit, interleaved chains, plus random mixtures; each case runs in its own process so a stack overflow, fd exhaustion or hang is observed rather than fatal.',
-      'A child killed by a signal is a violation; a hang is declared only after a 20 s and a solitary 150 s run both fail to finish (normal cost: milliseconds).',
+      'Exploration (enumerated): all macro-cycle lengths 1-8, include-cycle lengths 1-5, macro->include and `include `MACRO cycles, every macro-chain and include-chain depth 1-80, cross products of macro depth x include depth around the limit, interleaved chains, macro chains ending in an include of the file itself, plus random mixtures; each case runs in its own process so a stack overflow, fd exhaustion or hang is observed rather than fatal.',
+      'A child killed by a signal is a violation; a hang is declared only after a 20 s and a solitary 150 s run both fail to finish (normal cost: milliseconds). Known finding K17 (argument-doubling self-recursion) is replayed in a child with a 4 GiB address-space limit.',
       'DESIGN.md 6 C09')
 claim('C10', 'property-based testing: generated include graphs vs. reference model; ignore_include with the include files deleted; same-line templates; search-order rule in child processes with their own cwd',
-      'Exploration: ~12 000 generated include graphs (decoy copies in later include directories make a wrong search order visible; defines cross the boundary both ways) compared token-for-token and by define table / Include{File} error with the model; ~4 000 trees under ignore_include with the files removed from disk; ~3 000 same-line templates (IncludeLine iff something other than blanks/comments shares the line); ~400 (quick) child processes checking cwd-first / first-include-path / absolute / nowhere.',
+      'Exploration: ~12 000 generated include graphs (decoy copies in later include directories make a wrong search order visible; defines cross the boundary both ways) compared token-for-token and by define table / Include{File} error with the model; ~4 000 trees under ignore_include with the files removed from disk (a third of the includes stand inside a macro body); ~3 000 same-line templates (IncludeLine iff something other than blanks/comments shares the line); ~400 (quick) child processes checking cwd-first / first-include-path / absolute / nowhere.',
       'Trusts the reference model and the stated search rule as implemented independently in the harness.',
       'DESIGN.md 6 C10')
 claim('C11', 'property-based testing: returned define table vs. reference model; metamorphic relation threaded runs == concatenation',
@@ -50,11 +50,11 @@ claim('C20', 'property-based testing: differential comparison of all public entr
       'Results are compared through Debug renderings.',
       'DESIGN.md 6 C20')
 claim('C12', 'property-based testing: metamorphic relation over layouts (same token positions, independently generated trivia runs) on generated programs, their token mutants and corpus files',
-      'Exploration: ~11 500 (quick) programs / mutants / corpus files are laid out several times with white space at the same inter-token positions but different runs (blanks, tabs, form feeds, CR/LF/CRLF, comments, argument-closed directives) or get `resetall between descriptions; acceptance must be the same and accepted trees equal once WhiteSpace subtrees are dropped.',
+      'Exploration: ~11 500 (quick) programs / mutants / corpus files are laid out several times with white space at the same inter-token positions but different runs (blanks, tabs, form feeds, CR/LF/CRLF, comments, argument-closed directives) or get `resetall between descriptions; acceptance must be the same and accepted trees equal once WhiteSpace subtrees are dropped; ~3 000 library maps under two white-space layouts (parse_lib_str). A difference is re-judged against listed finding K3 (one layout parsed differently at the production memo capacity than with the unbounded table).',
       'Trivia generation respects the lexical preconditions listed in DESIGN.md 3.4; `pragma is excluded.',
       'DESIGN.md 6 C12')
 claim('C13', 'property-based testing: generated `begin_keywords region programs with later-only words as identifiers (must be accepted) and reserved-word mutants (must be rejected); tree-walk oracle with an independent keyword table',
-      'Exploration: ~15 000 (quick) cases: Verilog-95-safe modules in sequential/nested regions of all eight versions whose declared names are partly words reserved only later (accepted + walk oracle), the same with one declared name replaced by a word reserved in force (Error::Parse), and the walk oracle over the corpus and generated Annex A programs.',
+      'Exploration: ~15 000 (quick) cases: Verilog-95-safe modules in sequential/nested regions of all eight versions whose declared names are partly words reserved only later (accepted + walk oracle), the same with one declared name replaced by a word reserved in force (Error::Parse), and the walk oracle over the corpus and generated Annex A programs; between the directives stand kept directives and compilation-unit items (lone timeunit, later-only words as type names), the word behind a directive may be glued to its closing quote.',
       'Keyword tables are a snapshot in the harness cross-checked against IEEE 1800-2017 22.14.',
       'DESIGN.md 6 C13')
 claim('C14', 'fault enumeration by property-based testing: every token boundary / closing delimiter of generated and corpus programs, with and without include indirection; preprocessor-level lexical faults',
@@ -62,7 +62,7 @@ claim('C14', 'fault enumeration by property-based testing: every token boundary 
       'Sites are taken from the accepted tree of programs that preprocessing leaves unchanged.',
       'DESIGN.md 6 C14')
 claim('C15', 'property-based testing: corpus, generated programs, mutants, truncations, token soups and library maps through incomplete mode; differential against strict mode and the raw parsers; metamorphic junk-append',
-      'Exploration: ~16 000 (quick) inputs: never Error::Parse, prefix tiling, strict acceptance of exactly the covered prefix with an identical tree, equal trees when strict mode accepts, unchanged tree (white space aside) after appending unparsable text.',
+      'Exploration: ~16 000 (quick) inputs: never Error::Parse, prefix tiling, strict acceptance of exactly the covered prefix with an identical tree, equal trees when strict mode accepts, unchanged tree (white space aside) after appending unparsable text. A failed case is re-judged against listed finding K3 per parse it compares.',
       'Appended junk cannot continue the last description.',
       'DESIGN.md 6 C15')
 claim('C07', 'stateful property-based testing: generated call histories (entry point x pooled input incl. state-polluting inputs) followed by a probe, differential against a fresh-thread reference',
@@ -78,6 +78,6 @@ claim('C19', 'stress exploration (property-based plans of concurrent calls relea
       'Detects shared mutable state introduced between threads with high probability, not with certainty.',
       'DESIGN.md 6 C19, 8')
 claim('C17', 'property-based testing with the verif_hooks memo wrapper: differential of every bounded capacity (1024 … 1) against the unbounded table on corpus / generated / mutated inputs, deterministic insert budget, exact attribution of listed finding K3',
-      'Exploration: ~7 600 (quick) inputs x 3-11 capacities (~42 000 configurations): acceptance and the whole tree must equal the unbounded-table result; evictions are certain (inserts > capacity, from the hook counters) in ~80 % of the cases. A divergence is tolerated only when the recursion-aware key removes it (listed finding K3); everything else is a violation.',
+      'Exploration: ~17 600 (quick) inputs x 3-11 capacities (~120 000 configurations): acceptance and the whole tree must equal the unbounded-table result; evictions are certain (inserts > capacity, from the hook counters) in ~80 % of the cases. A divergence is tolerated only when the unbounded table accepts and the recursion-aware key removes it (listed finding K3) AND the share of such divergences per capacity stays under the ceilings listed with the finding (an aggregate bound checked at the end of the run); everything else is a violation.',
       'Needs the verif_hooks feature (wrapper around the real PackratStorage). Runs that exhaust the insert budget are inconclusive.',
       'DESIGN.md 6 C17, 5')
